@@ -29,7 +29,7 @@ ASSUMPTIONS = [
     "tasks / timers created by the harness (user-call runners, the scenario driver) are excluded by identity; every other live task or pending TimerHandle belongs to the client",
 ]
 PROBES = ["c15.during_connect_latency", "c15.during_backoff", "c15.mid_handshake", "c15.message_pending", "c15.at_heartbeat", "c15.after_fault",
-          "c15.reinit", "c15.reinit_changed_installation", "c15.socket_class", "c15.shutdown_twice", "c15.quick_reinit_with_pending", "c15.heartbeat_after_reinit", "c15.during_slow_reset", "c15.during_stalled_handshake", "c15.during_blocked_write", "c15.heartbeat_during_slow_close"]
+          "c15.reinit", "c15.reinit_changed_installation", "c15.socket_class", "c15.shutdown_twice", "c15.quick_reinit_with_pending", "c15.heartbeat_after_reinit", "c15.during_slow_reset", "c15.after_reconnection_dead_on_arrival", "c15.during_stalled_handshake", "c15.during_blocked_write", "c15.heartbeat_during_slow_close"]
 
 
 def budget(tier: str) -> int:
@@ -140,6 +140,17 @@ def generate(rng, index: int, tier: str) -> dict:
         gap = rng.choice([0.0, G.EPS, lat, lat + G.EPS, 0.5, 1.0, 2.0, 2.0 + G.EPS])
         recon = rng.choice([[{"kind": "accept", "latency": rng.choice([0.0, 0.5, 3.0])}], [{"kind": "refuse", "latency": 0.0}, {"kind": "accept", "latency": 0.0}],
                             [{"kind": "refuse", "latency": 0.0}] * 3])
+        if not sock and kind != "write" and rng.random() < 0.35:
+            # a second fault during the recovery: the first connection that comes up is reset by the console at once (the
+            # client's refresh meets a dead transport), the next one is healthy - the recovery paths of both faults overlap,
+            # and shutdown() lands within the 2 s in which a delayed retry of the first one may still be pending
+            recon = [{"kind": "accept", "latency": rng.choice([0.0, 0.125])}, {"kind": "accept", "latency": rng.choice([0.0, 0.125])}]
+            tl.append({"at": t_s - gap - G.EPS, "op": "net.rst_next_accept", "delay": rng.choice([0.0, G.EPS, lat, lat + G.EPS])})
+            gap = rng.choice([0.25, 0.5, 1.0, 1.5, 2.0 - G.EPS])
+            for x in tl:
+                if x["op"] == "net.rst_next_accept":
+                    x["at"] = t_s - gap - G.EPS
+            info["dead_on_arrival"] = True
         tl.append({"at": t_s - gap - G.EPS, "op": "net.fates", "fates": recon})
         if kind == "write":
             tl.append({"at": t_s - gap - G.EPS, "op": "net.fail_write", "nth": rng.choice([1, 2, 3]), "err": "EPIPE"})
@@ -289,6 +300,8 @@ def execute(sc: dict) -> dict:
         probes["c15.during_blocked_write"] = 1
     if info.get("stalled_handshake"):
         probes["c15.during_stalled_handshake"] = 1
+    if info.get("dead_on_arrival"):
+        probes["c15.after_reconnection_dead_on_arrival"] = 1
     if info.get("heartbeat_during_slow_close"):
         probes["c15.heartbeat_during_slow_close"] = 1
     if info.get("twice"):
